@@ -56,9 +56,9 @@ def bounds(tier, prop):
     if tier == "quick":
         return {"old path frames": "3..4 (sh), 3 (wf)", "length limit": "symbolic integer in [3, 5] (sh), [3,4] (wf)",
                 "fresh frames per propagation": "limit-2 (sh), limit-1 (wf): never binding", "n_jumps": "1",
-                "outside": "longer old paths / larger limits / n_jumps=2 (thorough)"}
+                "outside": "longer old paths / larger limits / n_jumps >= 2"}
     return {"old path frames": "3..5 (sh), 3..4 (wf)", "length limit": "symbolic integer in [3, 6] for [i+] ensembles with old length <= 4, [3, 5] otherwise (sh); wf: fixed 9 with <= 2 new frames per propagation, and symbolic [3,4]",
-            "fresh frames per propagation": "never binding", "n_jumps": "1..2", "outside": "larger sizes"}
+            "fresh frames per propagation": "never binding", "n_jumps": "1", "outside": "larger sizes; n_jumps >= 2"}
 
 
 def instances(tier, prop):
@@ -78,9 +78,8 @@ def instances(tier, prop):
     #       outside the bound); wf-B: small limit, frames never binding (limit interplay, FTX).
     for Lo in ((3,) if quick else (3, 4)):
         for cap in (False, True):
-            for nj in ((1,) if quick else (1, 2)):
-                if nj == 2 and Lo == 4:
-                    continue
+            for nj in (1,):
+                # (two jumps were measured at about 2.5 core-hours for old length 3 alone: outside both tiers)
                 out.append({"kind": "wf", "Lo": Lo, "M": 9, "nfresh": 2, "cap": cap, "n_jumps": nj,
                             "_cost": 1e6 * 9 ** Lo * nj * nj, "_splitbits": 4 if quick else 8})
     for cap in (False, True):
